@@ -281,12 +281,16 @@ def gen_perturb_cases(rng, n_per_system):
         while made < n_per_system and tries < 20 * n_per_system:
             tries += 1
             nrows = int(rng.integers(1, 5))
+            target_factor = float(rng.choice([1e-3, 0.1, 3.0, 10.0, 1e3]))
+            if target_factor == 3.0:
+                # a contradiction confined to ONE of many volumes, 3x above the tolerance there (the refusal is per
+                # volume: it must not be diluted by the clean volumes)
+                nrows = int(rng.integers(6, 13))
             T = fc.random_invariant(system, nrows, rng)
             S = set(mins[int(rng.integers(0, len(mins)))])
             S |= {int(x) for x in rng.choice(21, size=int(rng.integers(2, 10)), replace=False)}
             S = sorted(S)
             atol = float(rng.choice([0.1, 0.1, 1e-3, 5.0]))
-            target_factor = float(rng.choice([1e-3, 0.1, 10.0, 1e3]))
             j = int(rng.integers(0, len(S)))
             row = int(rng.integers(0, nrows))
             # residual is quadratic in the perturbation of a consistent table: rho(delta) = rho(1) * delta^2
@@ -302,7 +306,7 @@ def gen_perturb_cases(rng, n_per_system):
                     "target_factor": target_factor, "perturbed": fc.SYMS[S[j]], "delta": delta}
             rho = exact_residual(case)
             ratio = float(rho) / atol
-            if not (ratio >= 9.99 or ratio <= 0.1001): continue
+            if not (ratio >= 2.99 or ratio <= 0.1001): continue
             case["contradiction"] = "large" if ratio > 1 else "small"
             case["exact_residual_over_atol"] = ratio
             cases.append(case); made += 1
